@@ -120,6 +120,16 @@ def join_wf(rng):
 
 
 def random_cfg(rng, alg=None, family="roomy", nobs=None, maxn=4):
+    if family == "overrate":
+        # one observation produces data faster than the hot buffer may ingest:
+        # the ingest must be rejected with an error before anything is deposited
+        c = random_cfg(rng, alg=alg, family="roomy", nobs=nobs or rng.choice([1, 2]), maxn=3)
+        bad = rng.randrange(len(c["obs"]))
+        c["obs"][bad]["rate"] = c["hotRate"] + rng.randint(1, 2)
+        vols = [o["rate"] * o["dur"] for o in c["obs"]]
+        c["hotCap"] = (sum(vols) * 10) // 6 + 3
+        c["coldCap"] = max(vols) + 2
+        return normalise(c)
     if family == "b2b":
         # sub-array observations that start exactly when others finish, with
         # spare arrays, spare machines and a generous ingest limit
